@@ -3,7 +3,7 @@ import copy
 import numpy as np
 
 from sim.core import Violation, Inconclusive, SimRandom, Scheduler, close
-from sim.models import (gen_mdp_spec, MDPView, make_mdp, gen_pomdp_spec, POMDPView, make_pomdp, dyadic)
+from sim.models import (nested_variant_spec, gen_mdp_spec, MDPView, make_mdp, gen_pomdp_spec, POMDPView, make_pomdp, dyadic)
 from sim.refsolve import game_W
 from sim.ctx import RunCtx, make_scheduler, gen_sched
 from sim import shrink as shr
@@ -67,6 +67,8 @@ def gen_case(rng, tier, idx):
                    update_style=rng.choice(('assign', 'replace')), start=rng.choice([None] + list(range(v.N))),
                    cap=rng.choice((400, 1200)) if long_run else rng.choice((0, 1, 2, 5, 50)), cap_rel=rng.choice((-1, 0, 1)), nsim=rng.choice((1, 3, 10)),
                    ecap=rng.choice((0, 1, 2, 5, 30)))
+        if rng.random() < 0.12 and not plain:
+            cfg['nest'] = rng.randrange(1000)
     else:
         spec = gen_pomdp_spec(rng)
         kind = rng.choice(('alpha', 'qmdp', 'fsc'))
@@ -107,7 +109,7 @@ def execute(case, script=None):
     ctx = RunCtx(PROP, view if cfg['world'] == 'mdp' else None)
     if cfg['world'] == 'mdp' and case['spec'].get('proper'):
         ctx.W = game_W(view)
-    ctx.declare_probes('cap_before_absorption', 'cap_at_absorption', 'cap_after_absorption', 'cap_zero', 'start_absorbing',
+    ctx.declare_probes('nested_run', 'cap_before_absorption', 'cap_at_absorption', 'cap_after_absorption', 'cap_zero', 'start_absorbing',
                        'start_sampled', 'stopped_by_cap', 'stopped_by_absorption', 'pomdp_rollouts', 'mdp_rollouts',
                        'deterministic_exact_eval', 'long_rollout_400_steps', 'policy_updated_in_place')
     sched = make_scheduler(case, script, ctx)
@@ -210,7 +212,25 @@ def _exec_mdp(view, cfg, ctx, sched):
     cap = cfg['cap']
     if cap == 0:
         ctx.probe('cap_zero')
+    nested = None
+    if cfg.get('nest') is not None:
+        # fault F10: at the k-th model call-back of a roll-out / of the evaluation, user code rolls out and evaluates ANOTHER
+        # policy object on another model with the same state and action keys (a look-ahead policy or a reward function
+        # that Monte-Carlo-evaluates a base policy does this)
+        nv = MDPView(nested_variant_spec(view.spec, cfg['nest']))
+        nmdp = make_mdp(nv, None)
+        ntab = [{a: p / 8 for a, p in row} for row in cfg['pol2']]
+        npol = FunctionalPolicy(lambda s: DictDistribution({ak[a]: p for a, p in ntab[sid[s]].items()}))
+
+        def nested():
+            ctx.probe('nested_run')
+            r2 = SimRandom(sched)
+            npol.run_on(nmdp, max_steps=3, rng=r2)
+            npol.evaluate_on(nmdp, n_simulations=2, max_steps=3, rng=r2)
+        hookN = ctx.nest_after(1 + cfg['nest'] % 7, nested)
     tr = run(cap, rng, 'rollout#1')
+    if nested is not None:
+        ctx.disarm(hookN)
     ctx.probe('mdp_rollouts')
     _p, _n = _check_mdp_rollout(ctx, view, pol_tab, tr, start, cap, 'rollout#1')
     if _n >= 400:
@@ -252,6 +272,8 @@ def _exec_mdp(view, cfg, ctx, sched):
     # 3. Monte-Carlo evaluation
     runs.clear()
     nsim, ecap = cfg['nsim'], cfg['ecap']
+    if nested is not None:
+        hookN = ctx.nest_after(1 + cfg['nest'] % 23, nested)
     try:
         ev = pol.evaluate_on(mdp, n_simulations=nsim, max_steps=ecap, rng=rng) if cfg['policy'] != 'tabular' else \
             Policy.evaluate_on(pol, mdp, n_simulations=nsim, max_steps=ecap, rng=rng)
